@@ -273,7 +273,14 @@ fn do_analyze(case: &Value) -> Value {
     // 2. analyze() on the parsed libraries in the given order
     if !libs.is_empty() {
         let refs: Vec<&Library> = libs.iter().collect();
+        let _ = ironplc_analyzer::stages::verif_trace::drain();
         let r = catch_unwind(AssertUnwindSafe(|| ironplc_analyzer::stages::analyze(&refs)));
+        // what the stages recorded (guarded hook verif_trace in analyzer/src/stages.rs), for PipelineTrace.tla
+        let events: Vec<Value> = ironplc_analyzer::stages::verif_trace::drain()
+            .iter()
+            .map(|e| serde_json::from_str(e).unwrap_or_else(|_| json!({"ev": "unparsable", "text": e})))
+            .collect();
+        out.insert("stage_events".into(), Value::Array(events));
         match r {
             Err(e) => {
                 out.insert("panic".into(), json!(panic_msg(e)));
